@@ -123,12 +123,17 @@ RemoveM(s, choice) ==
        LET w  == s1.weight[choice]                                    \* 319
            s2 == [s1 EXCEPT !.weight = Drop(s1.weight, choice),       \* 319
                             !.total  = s1.total - w]                  \* 320
-       IN IF w = s2.maxw                                              \* 321
-          THEN LET s3 == [s2 EXCEPT !.maxcnt = s2.maxcnt - 1]         \* 326
-               IN IF s3.maxcnt = 0 /\ Len(s3.items) > 0               \* 327
-                  THEN UpdateMaxWeight(s3)                            \* 328  @cov:recount
-                  ELSE s3
-          ELSE s2
+           s4 == IF w = s2.maxw                                       \* 321
+                 THEN LET s3 == [s2 EXCEPT !.maxcnt = s2.maxcnt - 1]  \* 326
+                      IN IF s3.maxcnt = 0 /\ Len(s3.items) > 0        \* 327
+                         THEN UpdateMaxWeight(s3)                     \* 328  @cov:recount
+                         ELSE s3
+                 ELSE s2
+       \* 330-333 (fix 3c9b161): nothing with positive weight is left -> the running total is reset to exactly 0
+       \* (sheds the rounding residue of the float total; in exact arithmetic it is already 0: TotalIsSum, UpperBound)
+       IN IF s4.err = "none" /\ (Len(s4.items) = 0 \/ s4.maxw = 0)
+          THEN [s4 EXCEPT !.total = 0]                                \* @cov:reset-total
+          ELSE s4
 
 \* ---- update (279-309) --------------------------------------------------------
 UpdateM(s, item, inc) ==
